@@ -71,6 +71,8 @@ func verifRangeOrder[K, V any](m UnsafeGoMap[K, V]) []any {
 	for k := range m {
 		keys = append(keys, k)
 	}
-	sort.Slice(keys, func(i, j int) bool { return fmt.Sprintf("%T:%v", keys[i], keys[i]) < fmt.Sprintf("%T:%v", keys[j], keys[j]) })
+	sort.Slice(keys, func(i, j int) bool {
+		return fmt.Sprintf("%T:%v", keys[i], keys[i]) < fmt.Sprintf("%T:%v", keys[j], keys[j])
+	})
 	return h(keys)
 }
